@@ -279,6 +279,7 @@ type sev =
 | DStoStop of n
 | DTrigger of n
 | DGetFrame of n * ((n * n) * n) option
+| DGetEmpty of n
 | DAppend of n * bool * frm list
 | WMapEnter
 | WMap of bool
@@ -2834,6 +2835,32 @@ let step_stream s a e =
                 x.mon_fresh; dropped = x.dropped; cam_starts = x.cam_starts;
                 cam_stops = x.cam_stops; sto_starts = x.sto_starts;
                 sto_stops = x.sto_stops })) (fun _ -> SFailStop) s)))
+     | DGetEmpty i ->
+       guard
+         ((&&)
+           ((&&) (match s.s_pc with
+                  | SMapped -> true
+                  | _ -> false) (optN_eqb s.cam i))
+           (hst_eqb s.cam_st HRunning))
+         (set (fun s0 -> s0.s_pc) (fun f ->
+           let s0 = fun r -> f r.s_pc in
+           (fun x -> { valid = x.valid; maxn = x.maxn; cam = x.cam; cam_st =
+           x.cam_st; sto = x.sto; sto_st = x.sto_st; cam_tag = x.cam_tag;
+           cam_next = x.cam_next; log = x.log; accepting = x.accepting;
+           sink_reg = x.sink_reg; sink_cur = x.sink_cur; sink_map =
+           x.sink_map; mon_reg = x.mon_reg; mon_cur = x.mon_cur; mon_map =
+           x.mon_map; src_stopping = x.src_stopping; abort_win = x.abort_win;
+           sink_stopping = x.sink_stopping; filt_stopping = x.filt_stopping;
+           src_running = x.src_running; sink_running = x.sink_running;
+           filt_running = x.filt_running; s_pc = (s0 x); k_pc = x.k_pc;
+           f_pc = x.f_pc; c_stop = x.c_stop; c_start = x.c_start; iframe =
+           x.iframe; base = x.base; delivered = x.delivered; stored =
+           x.stored; sto_failed = x.sto_failed; seen = x.seen; aborted =
+           x.aborted; cam_failed = x.cam_failed; acq_on = x.acq_on; src_on =
+           x.src_on; goal = x.goal; mon_fresh = x.mon_fresh; dropped =
+           x.dropped; cam_starts = x.cam_starts; cam_stops = x.cam_stops;
+           sto_starts = x.sto_starts; sto_stops = x.sto_stops })) (fun _ ->
+           SLoop) s)
      | WMapEnter ->
        guard
          ((&&)
